@@ -97,6 +97,11 @@ def _indices(rows, marker):
     return [index for index, row in enumerate(rows) if row and row[0].strip().lower() == marker]
 
 
+def _storable(rows, storage):
+    """A workbook cannot hold a row without cells in front of other rows other than as a row of empty cells."""
+    return rows
+
+
 def _field_rows_of_type(rows, type_name):
     return [index for index in _indices(rows, "f") if rows[index][5] == type_name]
 
@@ -320,7 +325,9 @@ def apply_rewrites(rows, names, rng):
             for _ in range(rng.randint(1, 3)):
                 rows.insert(rng.randint(0, len(rows)), ["", rng.choice(["a comment", "f", "d format nonsense", ""]), "x"])
         elif name == "empty-rows":
+            # a row with one empty cell and a row without any cell (a blank line in a CSV file)
             rows.insert(rng.randint(0, len(rows)), [""])
+            rows.insert(rng.randint(0, len(rows)), [])
         elif name == "trailing-cells":
             for row in rows:
                 if row and row[0].strip() and rng.random() < 0.6:
